@@ -266,7 +266,10 @@ pub fn ro_ack_scenario(r: &mut Report, seed: u64, flagged: bool) {
 /// Part D: adaptive mode timeline (> 32 virtual minutes).
 /// variant 0 public reachable, 1 behind NAT, 2 reachable but responders vote a wrong address,
 /// 3 explicit server mode, 4 public_ip configured (adaptive), 5 responders vote the true address for the
-/// first 5-7 minutes (the node confirms it) and a wrong one from then on, 6 the other way round
+/// first 5-7 minutes (the node confirms it) and a wrong one from then on, 6 the other way round,
+/// 7 reachable through a static port forward (the reported port is not the port the socket is bound to; the
+/// forward lets everything through, the node's own datagrams included), 8 reachable, but the path from the
+/// node to its own public address and back is slow (0.6 .. 3 s: longer than any request timeout)
 pub fn adaptive_scenario(r: &mut Report, seed: u64, variant: usize) {
     r.eval();
     let mut rng = Rng::new(seed);
@@ -314,10 +317,24 @@ pub fn adaptive_scenario(r: &mut Report, seed: u64, variant: usize) {
         }
         3 => spec.server = true,
         4 => spec.public_ip = Some(ip),
+        7 => {
+            // a host with a private address behind a router, or a public host whose service port is remapped
+            if rng.bool() {
+                spec.ip = Ipv4Addr::new(192, 168, 1, 5);
+            }
+            spec.nat_public = Some(SocketAddrV4::new(ip, *rng.pick(&[40123u16, 6881, 1024, 65535])));
+            spec.nat_open = true;
+        }
         _ => {}
     }
     let x = w.spawn(spec).expect("x");
     let t0 = w.now();
+    if variant == 8 {
+        let me = x.addr;
+        let extra = (600 + rng.below(2400)) * MS;
+        case["hairpin_delay_ms"] = json!(extra / MS);
+        w.set_fault(Some(Box::new(move |info: &SendInfo| if info.from == me && info.to == me { Some(vec![(info.bytes.to_vec(), info.latency + extra)]) } else { None })));
+    }
     // neighbours of the wrongly voted address that happen to ping the node: one on the voted IP but another
     // port, one on another IP but the voted port. Neither is the address the node pinged to confirm itself.
     let neighbours = if matches!(variant, 2 | 5) { rng.usize(4) } else { 0 };
@@ -325,7 +342,7 @@ pub fn adaptive_scenario(r: &mut Report, seed: u64, variant: usize) {
     let n_same_port = if neighbours & 2 != 0 { Some(w.raw(SocketAddrV4::new(Ipv4Addr::new(74, 4, 4, 4), wrong.port()))) } else { None };
     let mut next_neighbour_ping = t0 + 30 * SEC + rng.below(60) * SEC;
     // the application checks on its node now and then: bootstrapped() (a lookup of the node's own id)
-    let own_id_lookups = matches!(variant, 0 | 4 | 6) && rng.bool();
+    let own_id_lookups = matches!(variant, 0 | 4 | 6 | 7 | 8) && rng.bool();
     let mut next_own_lookup = t0 + (5 + rng.below(4)) * MIN;
     if own_id_lookups {
         r.count("adaptive_worlds_with_application_lookups_of_the_own_id");
@@ -378,7 +395,7 @@ pub fn adaptive_scenario(r: &mut Report, seed: u64, variant: usize) {
         return;
     };
     match variant {
-        0 | 4 | 6 => {
+        0 | 4 | 6 | 7 | 8 => {
             if !info.server_mode() {
                 let why = if self_pings == 0 { "no-self-ping" } else if info.firewalled() { "still-firewalled" } else { "not-switched-at-refresh" };
                 r.violation(&format!("adaptive/reachable-node-stays-client/{why}"), "a node reachable at the address its peers report is still in client mode after 33 minutes", case.clone(), detail.clone());
@@ -480,11 +497,11 @@ pub fn run(a: &Args) -> Report {
         let (s, f) = (rng.u64(), i % 4 != 0);
         super::guarded(&mut r, json!({"class":"ro-acks","seed":s.to_string(),"flagged":f}), |r| ro_ack_scenario(r, s, f));
     }
-    for i in 0..per(80, 1600) {
-        let (s, v) = (rng.u64(), (i + a.shard) as usize % 7);
+    for i in 0..per(112, 2240) {
+        let (s, v) = (rng.u64(), (i + a.shard) as usize % 9);
         super::guarded(&mut r, json!({"class":"adaptive","seed":s.to_string(),"variant":v}), |r| adaptive_scenario(r, s, v));
         r.count("adaptive_timelines");
-        r.count(["adaptive_reachable", "adaptive_behind_nat", "adaptive_wrongly_voted", "adaptive_explicit_server", "adaptive_public_ip", "adaptive_confirmed_then_wrongly_voted", "adaptive_wrongly_voted_then_reachable"][v]);
+        r.count(["adaptive_reachable", "adaptive_behind_nat", "adaptive_wrongly_voted", "adaptive_explicit_server", "adaptive_public_ip", "adaptive_confirmed_then_wrongly_voted", "adaptive_wrongly_voted_then_reachable", "adaptive_reachable_through_a_port_forward", "adaptive_reachable_slow_hairpin"][v]);
     }
     r
 }
